@@ -136,7 +136,28 @@ fn random_f(rng: &mut Rng) -> f64 {
     }
 }
 
+/// dictionary strings that are valid UTF-8 (what people put into QR codes, byte order marks, escapes, look-alikes)
+fn dictionary() -> &'static Vec<String> {
+    static D: std::sync::OnceLock<Vec<String>> = std::sync::OnceLock::new();
+    D.get_or_init(|| {
+        let mut v: Vec<String> = crate::job::prefix_sweep(0x17).into_iter().filter_map(|(_, p)| String::from_utf8(p).ok()).collect();
+        v.extend(crate::job::UNICODE_LOOKALIKES.iter().map(|s| s.to_string()));
+        v.push("\u{feff}".to_string());
+        v.push("\u{feff}X".to_string());
+        v.push("\u{feff}https://example.com/".to_string());
+        v
+    })
+}
+
 fn random_content(rng: &mut Rng) -> String {
+    if rng.chance(1, 5) {
+        let d = dictionary();
+        let mut s = d[rng.below(d.len())].clone();
+        if rng.chance(1, 3) {
+            s.push_str(&d[rng.below(d.len())]);
+        }
+        return s;
+    }
     match rng.below(10) {
         0 => String::new(),
         1 => (0..rng.below(60)).map(|_| (b'0' + rng.below(10) as u8) as char).collect(),
